@@ -268,3 +268,45 @@ impl IntoResponse for MyError {
 mod embedded_ui {
     include!(concat!(env!("OUT_DIR"), "/embedded-ui.rs"));
 }
+
+// Verification hooks: thin wrappers that let the harness poll the private API handlers step by step.
+// Compiled only with --cfg redproxy_verif (set by /verif/harness/build.rs, never by this repository).
+#[cfg(redproxy_verif)]
+pub(crate) mod verif_hooks {
+    use super::*;
+    use axum::body::HttpBody;
+
+    async fn collect(resp: Response<BoxBody>) -> (u16, Vec<u8>) {
+        let status = resp.status().as_u16();
+        let mut body = resp.into_body();
+        let mut out = vec![];
+        while let Some(chunk) = body.data().await {
+            match chunk {
+                Ok(c) => out.extend_from_slice(&c),
+                Err(_) => break,
+            }
+        }
+        (status, out)
+    }
+    pub async fn status(state: Arc<GlobalState>) -> (u16, Vec<u8>) {
+        collect(get_status(Extension(state)).await.into_response()).await
+    }
+    pub async fn live(state: Arc<GlobalState>) -> (u16, Vec<u8>) {
+        collect(get_alive(Extension(state)).await.into_response()).await
+    }
+    pub async fn history(state: Arc<GlobalState>) -> (u16, Vec<u8>) {
+        collect(get_history(Extension(state)).await.into_response()).await
+    }
+    pub async fn rules_get(state: Arc<GlobalState>) -> (u16, Vec<u8>) {
+        collect(get_rules(Extension(state)).await.into_response()).await
+    }
+    pub async fn rules_post(state: Arc<GlobalState>, rules: Vec<Arc<Rule>>) -> (u16, Vec<u8>) {
+        collect(post_rules(Extension(state), Json(rules)).await.into_response()).await
+    }
+    pub async fn metrics() -> (u16, Vec<u8>) {
+        collect(get_metrics().await.into_response()).await
+    }
+    pub async fn logrotate(state: Arc<GlobalState>) -> (u16, Vec<u8>) {
+        collect(post_logrotate(Extension(state)).await.into_response()).await
+    }
+}
